@@ -87,6 +87,13 @@ DIRS = ["", "src", "src/core", "lib", "lib/util", "app/ui", "app", "tools", "cor
 STEMS = ["mod", "mod", "index", "util_x", "core_x"]
 CONFIG = {"dry": {"enabled": True}, "file-placement": {"global_deny": [{"pattern": r".*_x[0-9]*\.[a-z]+$", "reason": "no _x modules"}]}}
 FIELDS = ("rule_id", "file", "line", "column", "message")
+# explicit_config == 2: both entry points are given ALT_NAME (= CONFIG) explicitly while the autodiscoverable
+# .thailint.yaml carries different settings for sections ALT_NAME does not mention; whatever the tool does with the
+# discoverable file, the CLI and the library must do the same
+ALT_NAME = "alt-config.yaml"
+HOSTILE = {**CONFIG, "nesting": {"max_nesting_depth": 1}, "srp": {"max_methods": 1, "max_loc": 5}, "magic-numbers": {"allowed_numbers": [0]},
+           "stateless-class": {"min_methods": 1}, "method-property": {"max_body_statements": 1}, "performance": {"enabled": False},
+           "print-statements": {"enabled": False}, "lbyl": {"enabled": False}, "unwrap-abuse": {"allow_expect": False}}
 
 
 @st.composite
@@ -137,7 +144,7 @@ def cases(draw):
     both = [i for i, f in enumerate(files) if f.get("k") == -1]
     if both and both[0] not in libfiles:
         libfiles.append(both[0])
-    explicit_config = draw(st.integers(0, 3)) == 0
+    explicit_config = draw(st.sampled_from([0, 0, 0, 1, 2, 2]))
     return {"cmd": cmd, "files": files, "subset": subset, "subdir": subdir, "recursive": recursive, "libfiles": libfiles,
             "explicit_config": explicit_config}
 
@@ -163,10 +170,11 @@ class Runs:
     def __init__(self, p, cmd, failures, explicit_config=False):
         self.p, self.cmd, self.failures = p, cmd, failures
         self.explicit_config = explicit_config
+        self.config_name = ALT_NAME if explicit_config == 2 else ".thailint.yaml"
         self.ids = set()
 
     def cli(self, targets, recursive=True):
-        args = [self.cmd, "--format", "json"] + (["--config", ".thailint.yaml"] if self.explicit_config else [])
+        args = [self.cmd, "--format", "json"] + (["--config", self.config_name] if self.explicit_config else [])
         args += ([] if recursive else ["--no-recursive"]) + list(targets)
         r = runner.run_cli(args, cwd=self.p.root)
         if r.exit not in (0, 1) or r.swallowed or r.exception:
@@ -183,7 +191,7 @@ class Runs:
         os.chdir(self.p.root)
         try:
             with runner.capture_swallowed() as swallowed:
-                linter = runner.fresh_linter(self.p.root, ".thailint.yaml" if self.explicit_config else None)
+                linter = runner.fresh_linter(self.p.root, self.config_name if self.explicit_config else None)
                 vs = [runner.vdict(v) for v in linter.lint(target, rules=rules)]
         finally:
             os.chdir(old)
@@ -239,8 +247,12 @@ def check(case) -> Case:
     paths = [f["p"] for f in files]
     failures = []
     labels = [f"cmd={cmd}", "cross-file" if cross else "per-file", f"nfiles={len(files)}", f"recursive={case['recursive']}",
-              "subdir" if case["subdir"] else "no-subdir", "config=explicit" if case.get("explicit_config") else "config=autodiscovered"]
-    with Project({f["p"]: render(f) for f in files}, config=CONFIG) as p:
+              "subdir" if case["subdir"] else "no-subdir", ["config=autodiscovered", "config=explicit", "config=explicit-alternative-file"][int(case.get("explicit_config") or 0)]]
+    with Project({f["p"]: render(f) for f in files}, config=HOSTILE if case.get("explicit_config") == 2 else CONFIG) as p:
+        if case.get("explicit_config") == 2:
+            from vf.project import to_yaml
+
+            p.write(ALT_NAME, to_yaml(CONFIG))
         runs = Runs(p, cmd, failures, case.get("explicit_config", False))
         base = {"cmd": cmd, "files": paths}
         root_ms = runs.cli(["."])
